@@ -269,7 +269,7 @@ def main(tier, replay=None):
             for s in ((0, 1, 2) if tier == "thorough" else (0,)):
                 run_source({"kind": "gen", "params": dict(q, seed=s)}, rep)
     nshards = 16 if tier == "thorough" else 8
-    total = 16 * 1500 if tier == "thorough" else 800
+    total = 16 * 2500 if tier == "thorough" else 4000
     for part in engine.run_shards(_shard, nshards, common.verif_seed(), tier=tier, n_cases=total // nshards):
         rep.merge(part)
     return rep.finish()
